@@ -140,7 +140,7 @@ fn text_strategy() -> BoxedStrategy<String> {
 }
 
 fn width_strategy() -> BoxedStrategy<usize> {
-    prop_oneof![2 => Just(0usize), 2 => 1usize..5, 2 => 5usize..=16, 1 => Just(8usize)].boxed()
+    prop_oneof![4 => Just(0usize), 4 => 1usize..5, 4 => 5usize..=16, 2 => Just(8usize), 1 => 17usize..70, 1 => prop_oneof![Just(63usize), Just(64), Just(65), Just(128), Just(129), Just(300)]].boxed()
 }
 
 fn op_strategy() -> BoxedStrategy<TOp> {
@@ -455,7 +455,7 @@ pub fn property() -> Property {
         ],
         parts: vec![Box::new(Gen::<TabCase> {
             name: "history",
-            rule: "0-14 (thorough 30) ops from set_tab_width/with_tab_width (0..=16), set_style/with_style/style().template() re-set over 9 templates (tabs in literals, tab literals ending at a line break, '{'+TAB, custom keys writing tabs in one and in several writes), set/with message/prefix with 0-5 tabs, finish_with_message/abandon_with_message/reset/tick, optional final drop with ProgressFinish::WithMessage; after every op: no TAB in any terminal write, painted lines == model with tabs -> current width, message()/prefix() == expanded; non-trivial = a width change after a text with a tab was set",
+            rule: "0-14 (thorough 30) ops from set_tab_width/with_tab_width (0..=16, occasionally up to 300), set_style/with_style/style().template() re-set over 9 templates (tabs in literals, tab literals ending at a line break, '{'+TAB, custom keys writing tabs in one and in several writes), set/with message/prefix with 0-5 tabs, finish_with_message/abandon_with_message/reset/tick, optional final drop with ProgressFinish::WithMessage; after every op: no TAB in any terminal write, painted lines == model with tabs -> current width, message()/prefix() == expanded; non-trivial = a width change after a text with a tab was set",
             strategy: case_strategy,
             cases: |t| t.pick(30_000, 1_200_000),
             run: run_tabs,
